@@ -720,6 +720,45 @@ fn prog_ops_lit(group: &str, t: NT, ops: &[(&'static str, &'static str)], lits: 
     Prog { group: group.to_string(), src: s, points }
 }
 
+/// like `prog_ops`, but the RIGHT operand is a variable of a NARROWER type that fits the left one
+/// (`x : i16; y : u8; x >>= y`, `x / y`): the operation is the LEFT type's (signed division /
+/// arithmetic shift for a signed destination whatever the signedness of the right operand), on the
+/// converted right operand. Both the binary and the compound form (seeded change C08_3: the
+/// compound form took the operator's signedness from the right operand).
+fn prog_ops_mixed(group: &str, t: NT, nt: NT, ops: &[(&'static str, &'static str)], pairs: &[(u128, u128)], rng: &mut Rng) -> Prog {
+    let a: Vec<u128> = pairs.iter().map(|p| p.0).collect();
+    let b: Vec<u128> = pairs.iter().map(|p| p.1).collect();
+    let mut s = String::from(HEADER);
+    s.push_str(&array_decl("A", &a, t, rng));
+    s.push_str(&array_decl("B", &b, nt, rng));
+    s.push_str(&format!("\nrun :: () {{\n    wa := A;\n    wb := B;\n    i : usize = 0;\n    while i < {} {{\n", pairs.len()));
+    s.push_str(&load_stmt("a", "wa", t));
+    s.push_str(&load_stmt("b", "wb", nt));
+    for (l, c) in ops {
+        let rb = if is_cmp(l) { 8 } else { t.bits };
+        s.push_str(&format!("        {{ x := a; y := b; r := x {c} y; {} }}\n", print_stmt(rb)));
+        if !is_cmp(l) {
+            s.push_str(&format!("        {{ x := a; y := b; x {c}= y; r := x; {} }}\n", print_stmt(rb)));
+        }
+    }
+    s.push_str("        i += 1;\n    }\n    fflush(0);\n}\n\n");
+    s.push_str(FOOTER);
+    let mut points = vec![];
+    for (x, y) in pairs {
+        let wide = match oracle_cast(nt, t, *y) {
+            Expect::Bits(w) => w,
+            _ => *y,
+        };
+        for (l, _) in ops {
+            points.push(Point::Bin { t, op: l, a: *x, b: wide });
+            if !is_cmp(l) {
+                points.push(Point::Bin { t, op: l, a: *x, b: wide });
+            }
+        }
+    }
+    Prog { group: group.to_string(), src: s, points }
+}
+
 /// `Ty::can_fit_into` on the numeric types (which implicit conversions the front end accepts)
 fn fits_into(from: NT, to: NT) -> bool {
     use Kind::*;
@@ -855,6 +894,49 @@ fn build_programs(tier: &str, widen: bool, rng: &mut Rng) -> Vec<Prog> {
                     let amounts: Vec<u128> = dedup(vec![0, 1, 3, (t.bits / 2) as u128, (t.bits - 1) as u128]);
                     for chunk in avals.chunks(200) {
                         progs.push(prog_ops_lit(&format!("lit-shift-{}", t.name), t, &SHIFTS, &amounts, chunk, rng));
+                    }
+                    // a narrower right operand of another integer type (also of the other signedness)
+                    for nt in TYPES {
+                        if nt.kind != Kind::Int || nt.name == t.name || !fits_into(nt, t) {
+                            continue;
+                        }
+                        let top_n: u128 = if nt.signed { (1u128 << (nt.bits - 1)) - 1 } else { mask(nt.bits) };
+                        let mut left: Vec<u128> = vec![0, 1, 7, mask(t.bits), mask(t.bits) - 6, 1u128 << (t.bits - 1), (1u128 << (t.bits - 1)) - 1, random_int(t, rng)];
+                        if thorough {
+                            left.extend(bs.iter().copied());
+                        }
+                        let left = dedup(left);
+                        let mut right: Vec<u128> = vec![1, 2, 5, top_n, random_int(nt, rng) | 1];
+                        if nt.signed {
+                            right.push(mask(nt.bits)); // -1
+                            right.push(mask(nt.bits) - 2); // -3
+                        }
+                        let right = dedup(right);
+                        let smin = 1u128 << (t.bits - 1);
+                        let mut pairs = vec![];
+                        let mut dpairs = vec![];
+                        let mut spairs = vec![];
+                        for x in &left {
+                            for y in &right {
+                                pairs.push((*x, *y));
+                                let wide = match oracle_cast(nt, t, *y) {
+                                    Expect::Bits(w) => w,
+                                    _ => *y,
+                                };
+                                if wide != 0 && !(t.signed && *x == smin && wide == mask(t.bits)) {
+                                    dpairs.push((*x, *y));
+                                }
+                                // shift amounts: non-negative and below the width of the left operand
+                                if !(nt.signed && (*y >> (nt.bits - 1)) & 1 == 1) && *y < t.bits as u128 {
+                                    spairs.push((*x, *y));
+                                }
+                            }
+                        }
+                        progs.push(prog_ops_mixed(&format!("mixed-arith-{}-{}", t.name, nt.name), t, nt, &ARITH, &pairs, rng));
+                        progs.push(prog_ops_mixed(&format!("mixed-divrem-{}-{}", t.name, nt.name), t, nt, &DIVREM, &dpairs, rng));
+                        if !spairs.is_empty() {
+                            progs.push(prog_ops_mixed(&format!("mixed-shift-{}-{}", t.name, nt.name), t, nt, &SHIFTS, &spairs, rng));
+                        }
                     }
                 }
             }
